@@ -2489,8 +2489,8 @@ func position(tokens []Token, _ string) pr.CssProperty {
 		return nil
 	}
 	token := tokens[0]
-	if fn, ok := token.(pa.FunctionBlock); ok && fn.Name == "running" && len(fn.Arguments) == 1 {
-		if ident, ok := (fn.Arguments)[0].(pa.Ident); ok {
+	if name, args := pa.ParseFunction(token); name == "running" && len(args) == 1 {
+		if ident, ok := args[0].(pa.Ident); ok {
 			return pr.BoolString{Bool: true, String: string(ident.Value)}
 		}
 	}
